@@ -94,7 +94,7 @@ def gen_vectors(rng, thorough):
     """Base points x deltas (DESIGN C14): a fixed boundary core plus seeded randoms, cut to per-function quotas."""
     u = lambda n: n % P32
     fixed_bases = [0, 1, H32 - 1, H32, H32 + 1, P32 - 1]
-    nb = 34 if thorough else 6
+    nb = 60 if thorough else 8
     bases = fixed_bases + [rng.randrange(P32) for _ in range(nb)]
     pw = []
     for k in range(1, 32):
@@ -134,9 +134,11 @@ def gen_vectors(rng, thorough):
                 for dx in [0, 1, -1, b - 1, b, b + 1, -y - 1, -y, -y + 1, H32, H32 - y, H32 - y + 1, b - H32, b - H32 - 1,
                            rng.randrange(P32), rng.randrange(1, 1 << 16), -rng.randrange(1, 1 << 16)]:
                     vec['overlap'].append((a, u(b), u(a + dx), u(y)))
-    quota = dict(lt=120000, le=120000, size=60000, add=60000, upd=40000, inrange=200000, inwindow=150000, overlap=300000) if thorough \
-        else dict(lt=4500, le=4500, size=2500, add=2500, upd=1500, inrange=13000, inwindow=9000, overlap=20000)
-    out = []
+    quota = dict(lt=120000, le=120000, size=60000, add=60000, upd=40000, inrange=200000, inwindow=150000, overlap=600000) if thorough \
+        else dict(lt=4500, le=4500, size=3500, add=3500, upd=2500, inrange=13000, inwindow=9000, overlap=28000)
+    # the reproduction scripts of the known findings F2a / F2b (DESIGN 1.3) come first, then the swept families
+    out = [['lt', 0, H32], ['lt', H32, 0], ['le', 5, H32 + 5], ['le', H32 + 5, 5],
+           ['overlap', 0, H32 + 10, 5, 1], ['overlap', 10, 0, 5, 20], ['overlap', 5, 20, 10, 0], ['overlap', 0, 0, H32, 0]]
     nfix = len(fixed_bases)
     for op in ('lt', 'le', 'size', 'add', 'upd', 'inrange', 'inwindow', 'overlap'):
         seen = set()
@@ -239,7 +241,7 @@ def report(ctx, drv, bad, kf, by_id, kind):
     # a rejected result is re-observed once (same input, fresh process) before it is reported
     if bad:
         vec = [by_id[e['id']]['vec'] for e in bad]
-        again = run_driver(ctx, drv, vec, 'recheck-' + kind)
+        again = run_driver(ctx, drv, vec, 'recheck-' + re.sub(r'\W+', '-', kind))
         for e, e2 in zip(bad, again):
             if e2['got'] != e['got']:
                 raise vlib.Inconclusive('non-reproducible result for %s' % describe(e))
@@ -258,6 +260,30 @@ def report(ctx, drv, bad, kf, by_id, kind):
                 describe(e), not e['got'], key, len(ids), kind),
                 dict(kind='vector', vectors=[by_id[i]['vec']], event=e, source=kind), key=key)
     return {k: len(v) for k, v in hits.items()}
+
+
+class ById(object):
+    """id -> dict(vec=, ev=) over the parallel lists of vectors and events."""
+    def __init__(self, vectors, evs):
+        self.vectors, self.evs = vectors, evs
+
+    def __getitem__(self, i):
+        return dict(vec=self.vectors[i], ev=self.evs[i])
+
+
+def replay(ctx, data):
+    """vcheck C14 --replay <file>: call the recorded vectors again; TLC judges the results."""
+    dev_known_findings(ctx)
+    drv = ctx.go_build('seqnumd')
+    vectors = data['replay']['vectors']
+    evs = run_driver(ctx, drv, vectors, 'replay')
+    n_acc, bad, kf = validate(ctx, evs, 'replay', True, 1, 8)
+    ctx.traces += n_acc
+    for e in evs[:3]:
+        ctx.sample(dict(kind='replayed-vector', call=describe(e), event=e))
+    report(ctx, drv, bad, kf, ById(vectors, evs), 'replay')
+    ctx.extra['evaluations'] = len(vectors)
+    ctx.extra['distinct_nontrivial'] = len(set(tuple(v) for v in vectors))
 
 
 def dev_known_findings(ctx):
@@ -301,10 +327,10 @@ def run(ctx):
         out = [ctx.tlc('MCSeqNum', cfg(constants=dict(M=16), invariants=full + ['QuadsLit', 'Shift']), SPEC,
                        name='MCSeqNum-M16', must_pass=True, count=False),
                # U32 (16-bit halves) is the same function as SeqNum: B=4 (quads for one a in quick, all in thorough)
-               ctx.tlc('MCU32', cfg(constants=dict(B=4, QA=vlib.MV('0 .. 15') if th else vlib.MV('{7}')),
+               ctx.tlc('MCU32', cfg(constants=dict(B=4, QA=vlib.MV('{' + ', '.join(str(i) for i in range(16)) + '}') if th else vlib.MV('{7}')),
                                     invariants=['Arith', 'Pairs', 'Triples', 'Quads']), SPEC,
                        name='MCU32-B4', must_pass=True, count=False),
-               ctx.tlc('MCSeqNum', cfg(constants=dict(M=32), invariants=full), SPEC,
+               ctx.tlc('MCSeqNum', cfg(constants=dict(M=32), invariants=full + (['QuadsLit'] if th else [])), SPEC,
                        name='MCSeqNum-M32', must_pass=True, count=False, timeout=1500)]
         if th:
             out.append(ctx.tlc('MCU32', cfg(constants=dict(B=8, QA=vlib.MV('{}')), invariants=['Arith', 'Pairs', 'Triples', 'Quads']),
@@ -318,7 +344,9 @@ def run(ctx):
     vectors = gen_vectors(ctx.rng, th)
     t0 = time.time()
     evs = run_driver(ctx, drv, vectors, 'main')
-    by_id = {e['id']: dict(vec=vectors[e['id']], ev=e) for e in evs}
+    if any(e['id'] != i for i, e in enumerate(evs)):
+        raise vlib.Inconclusive('seqnumd event ids out of order')
+    by_id = ById(vectors, evs)
     ngroups = 4 if th else 1
     per = ((len(evs) + ngroups - 1) // ngroups + SEG - 1) // SEG * SEG
     fut_vec = [pool.submit(validate, ctx, evs[g * per:(g + 1) * per], 'vec%d' % g, True, SEG, 6, False)
@@ -354,6 +382,11 @@ def run(ctx):
                 raise vlib.Inconclusive('vacuous table for %s at k=%d' % (op, k))
             if op in KF_OF and t['in_region'] == 0:
                 raise vlib.Inconclusive('vacuous F2 region for %s at k=%d' % (op, k))
+            # the I-spec shapes predict: off the definition exactly on the F2 region
+            if op in KF_OF and t['mismatch_outside_region'] == 0 and t['mismatch_in_region'] != t['in_region']:
+                ctx.model_drift('%s agrees with the definition on %d of %d swept tuples of region %s: seqnum.go no longer has the '
+                                'shape of SeqNum.tla part 2 (the Apalache results then say nothing about the code)' % (
+                                    op, t['in_region'] - t['mismatch_in_region'], t['in_region'], KF_OF[op]))
         stage2 += vlib.read_ndjson(op_) if os.path.getsize(op_) else []
     ctx.extra['sweep'] = sweep_stats
     ctx.extra['sweep_evaluations'] = sum(t['evals'] for r in sweep_stats.values() for t in r['ops'].values())
@@ -429,7 +462,12 @@ def run(ctx):
             if all(len(good.get(o, [])) >= 4 for o in ARITY):
                 break
     allops = sorted(ARITY)
-    ops_st = [o for o in (allops if th else [allops[ctx.seed % len(allops)]]) if len(good.get(o, [])) >= 4]
+    ops_st = sorted(set((['lt', 'overlap', 'size'] if th else []) + [allops[ctx.seed % len(allops)]]))
+    ops_st = [o for o in ops_st if len(good.get(o, [])) >= 4]
+    if bad or plain_total:
+        # the tree under test already has results TLC rejects (the binding is visibly live); the context events of
+        # the self-test segments could be wrong too, so the flipped-result self-test is not meaningful on this tree
+        ops_st = []
     st_groups = [good[o][:3] + [flipped(good[o][3])] for o in ops_st]
     st_ids = [g[3]['id'] for g in st_groups]
     a2, bad2, kf2 = validate(ctx, None, 'stage2', True, 1, 10 + len(st_groups), True,
@@ -459,8 +497,9 @@ def run(ctx):
         _a, badp, _k = validate(ctx, anti, 'strict', False, 1, 2, False)
         if len(badp) != 1:
             raise vlib.Inconclusive('pure P-spec accepted a result in an F2 region that differs from the definition')
-    ctx.extra['binding_selftest'] = 'flipped result rejected by TLC for %s; corrupted table entries noticed by the sweep%s' % (
-        ops_st, '; strict P-spec rejects an F2 vector' if th and anti else '')
+    ctx.extra['binding_selftest'] = '%s; corrupted table entries noticed by the sweep%s' % (
+        'flipped result rejected by TLC for %s' % ops_st if ops_st else 'flipped-result test skipped: real results already rejected',
+        '; strict P-spec rejects an F2 vector' if th and anti else '')
 
     # ---- collect background work
     for r in fut_e1.result():
